@@ -27,7 +27,8 @@ def OPTS := ["allexport", "clobber", "errexit", "glob", "hashondefinition", "ign
 def DIRS := ["/d1", "/d2", "/d1/s"]
 def MASKS := ["022", "027", "077"]
 def FILES := ["f1", "f2"]
-def FDS := ["3", "4", "5", "20"]
+/-- 10 = `MIN_INTERNAL_FD`; never the target of `fdd` (see the harness) -/
+def FDS := ["3", "4", "5", "20", "10"]
 def LIMITS := ["16", "18", "unlimited"]
 
 /-- conditions the `trap` / `raise` ops range over (TSTP/TTIN/TTOU are only watched) -/
@@ -63,7 +64,9 @@ def parseOp (t : String) : Option Op :=
   | ["trap", s, a] => do pure (.trap (← parseCond s) (← parseTrapAct a))
   | ["fdw", n, f] => do guardIn n FDS; guardIn f FILES; pure (.fdw (← n.toNat?) f)
   | ["fdr", n] => do guardIn n FDS; pure (.fdr (← n.toNat?))
-  | ["fdd", n, m] => do guardIn n FDS; guardIn m (FDS ++ ["1", "2"]); pure (.fdd (← n.toNat?) (← m.toNat?))
+  | ["fdd", n, m] => do
+    guardIn n FDS; guardIn m (FDS ++ ["1", "2"])
+    if n == "10" then none else pure (.fdd (← n.toNat?) (← m.toNat?))
   | ["fdc", n] => do guardIn n FDS; pure (.fdc (← n.toNat?))
   | ["local", n, v] => do guardIn n VARS; guardIn v VALS; pure (.local n v)
   | ["raise", "KILL"] => some (.raise Fork.SIGKILL)
